@@ -393,7 +393,12 @@ impl Inventory {
             None => return Err(not_found_path(&self.id, src_version_num, src_path)),
         };
 
-        self.head_version_mut().add_file(digest, dst_path)
+        let dst_content_path = self.new_content_path(&dst_path);
+        self.head_version_mut().add_file(digest, dst_path)?;
+        // If the destination was a file added in the HEAD version, its content is no longer
+        // referenced and must not remain in the manifest
+        self.manifest.remove_path(&dst_content_path);
+        Ok(())
     }
 
     /// Moves the specified logical path to a new path within the head version. The destination
@@ -403,6 +408,7 @@ impl Inventory {
         src_path: &LogicalPath,
         dst_path: LogicalPath,
     ) -> Result<()> {
+        let dst_content_path = self.new_content_path(&dst_path);
         let head = self.head_version_mut();
         let digest = match head.lookup_digest(src_path) {
             Some(digest) => digest.clone(),
@@ -411,6 +417,9 @@ impl Inventory {
 
         head.add_file(digest, dst_path)?;
         head.remove_file(src_path);
+        // If the destination was a file added in the HEAD version, its content is no longer
+        // referenced and must not remain in the manifest
+        self.manifest.remove_path(&dst_content_path);
         Ok(())
     }
 
